@@ -11,6 +11,7 @@ import (
 	"bytes"
 	"context"
 	"fmt"
+	"io"
 	"os"
 	"os/exec"
 	"path/filepath"
@@ -137,7 +138,15 @@ func histWorker(a []string) {
 					e.A = id
 					pl := payload(id, r.Intn(700))
 					e.Inv = monoNow()
-					err := lockedfile.Write(path, bytes.NewReader(pl), 0o666)
+					// the content reader varies: a WriterTo (one write), or a reader that delivers
+					// the payload in several chunks (io.Copy's buffer loop: several writes, all of
+					// them inside the one critical section)
+					var content io.Reader = bytes.NewReader(pl)
+					if r.Intn(3) == 0 && len(pl) > 2 {
+						a, b := len(pl)/3, 2*len(pl)/3
+						content = &chunkReader{chunks: [][]byte{pl[:a], pl[a:b], pl[b:]}, final: io.EOF, withLas: r.Intn(2) == 0}
+					}
+					err := lockedfile.Write(path, content, 0o666)
 					e.Resp = monoNow()
 					e.OK = err == nil
 				default:
